@@ -3,6 +3,8 @@
 package geom
 
 func init() {
+	vfHarnesses["C09_distance_lines_t"] = vfhC09DistanceLinesT
+	vfHarnesses["C09_distance_lines"] = vfhC09DistanceLines
 	vfHarnesses["C09_point_point"] = vfhC09PointPoint
 	vfHarnesses["C09_point_line"] = vfhC09PointLine
 	vfHarnesses["C09_line_line"] = vfhC09LineLine
@@ -103,5 +105,90 @@ func vfhC09MultiPointLine() {
 	}
 	vfAssert(Intersects(mp, other) == want, "Intersects(MultiPoint, other) is some-point-shared, whatever the position of the EMPTY member")
 	vfAssert(Intersects(other, mp) == want, "symmetric")
+	vfReach("end")
+}
+
+// Distance(2-point line, 2-point line) for disjoint segments is the least of
+// the four end-point-to-segment distances (each computed by the library's own
+// point-segment kernel, so the comparison is exact: the same rounded values are
+// compared), in both argument orders.
+func vfhC09DistanceLines() {
+	a, b, c, d := vfPt("a"), vfPt("b"), vfPt("c"), vfPt("d")
+	vfAssume(!vfEqXY(a, b))
+	vfAssume(!vfEqXY(c, d))
+	vfAssume(!vfSegsMeet(a, b, c, d))
+	l1, l2 := vfLineXY(a, b).AsGeometry(), vfLineXY(c, d).AsGeometry()
+	got, ok := Distance(l1, l2)
+	vfAssert(ok, "defined for non-empty operands")
+	rev, ok := Distance(l2, l1)
+	vfAssert(ok, "defined for non-empty operands (reversed)")
+	k := [4]float64{
+		distBetweenXYAndLine(a, line{c, d}),
+		distBetweenXYAndLine(b, line{c, d}),
+		distBetweenXYAndLine(c, line{a, b}),
+		distBetweenXYAndLine(d, line{a, b}),
+	}
+	for i := range k {
+		vfAssert(got <= k[i], "Distance is at most each end-point-to-segment distance")
+		vfAssert(rev <= k[i], "Distance (reversed operands) is at most each end-point-to-segment distance")
+	}
+	vfAssert(vfOr(vfOr(got == k[0], got == k[1]), vfOr(got == k[2], got == k[3])), "Distance is one of the four end-point-to-segment distances")
+	vfAssert(got == rev, "symmetric")
+	vfReach("end")
+}
+
+// vfStubDistUF replaces geom.distBetweenXYAndLine in C09_distance_lines: an
+// arbitrary non-negative function of the point and the segment.
+func vfStubDistUF(xy XY, ln line) float64 {
+	r := vfOpaque("dxl", xy.X, xy.Y, ln.a.X, ln.a.Y, ln.b.X, ln.b.Y)
+	vfAssume(r >= 0)
+	return r
+}
+
+// Quick variant of vfhC09DistanceLines: six concrete pairs of segments - in
+// four of them a different one of the four end points is strictly the closest
+// to the interior of the other segment - moved by a common symbolic lattice
+// translation (all tests are then linear); the kernel is still arbitrary, so
+// every ordering of the four kernel values is covered symbolically, and a
+// counterexample replays natively on the pair where that end point matters.
+func vfhC09DistanceLinesT() {
+	t := vfPt("t")
+	var q [4]XY
+	switch vfInt("pair", 0, 5) {
+	case 0:
+		q = [4]XY{{5, 1}, {5, 10}, {0, 0}, {10, 0}}
+	case 1:
+		q = [4]XY{{5, 10}, {5, 1}, {0, 0}, {10, 0}}
+	case 2:
+		q = [4]XY{{0, 0}, {10, 0}, {5, 1}, {5, 10}}
+	case 3:
+		q = [4]XY{{0, 0}, {10, 0}, {5, 10}, {5, 1}}
+	case 4:
+		q = [4]XY{{0, 0}, {3, 4}, {6, 0}, {9, -2}}
+	default:
+		q = [4]XY{{0, 0}, {4, 0}, {1, 2}, {3, 2}}
+	}
+	for i := range q {
+		q[i] = XY{q[i].X + t.X, q[i].Y + t.Y}
+	}
+	a, b, c, d := q[0], q[1], q[2], q[3]
+	vfAssume(!vfSegsMeet(a, b, c, d))
+	l1, l2 := vfLineXY(a, b).AsGeometry(), vfLineXY(c, d).AsGeometry()
+	got, ok := Distance(l1, l2)
+	vfAssert(ok, "defined for non-empty operands")
+	rev, ok := Distance(l2, l1)
+	vfAssert(ok, "defined for non-empty operands (reversed)")
+	k := [4]float64{
+		distBetweenXYAndLine(a, line{c, d}),
+		distBetweenXYAndLine(b, line{c, d}),
+		distBetweenXYAndLine(c, line{a, b}),
+		distBetweenXYAndLine(d, line{a, b}),
+	}
+	for i := range k {
+		vfAssert(got <= k[i], "Distance is at most each end-point-to-segment distance")
+		vfAssert(rev <= k[i], "Distance (reversed operands) is at most each end-point-to-segment distance")
+	}
+	vfAssert(vfOr(vfOr(got == k[0], got == k[1]), vfOr(got == k[2], got == k[3])), "Distance is one of the four end-point-to-segment distances")
+	vfAssert(got == rev, "symmetric")
 	vfReach("end")
 }
